@@ -213,3 +213,16 @@ package shell
 //@ census[C04] crypto.(*SessionKey).Zero in -
 //@ census[C25] (*Executor).ReleaseSession in (*Executor).NewSession, (*Executor).NewPTYSession, (*Handler).handleMetadata, (*Handler).releaseSession
 //@ note C25: a session slot is given back only by the start functions on their own error paths, by the metadata handler when it fails after a successful start, and by the stream handler when a stream ends - in particular not by the goroutines that reap the child process (a second release would free the slot of another running session)
+
+// ---- C25: a stream's session slot is given back at most once, whatever the interleaving of its teardowns ----
+//@ guarded ShellStream.mu: Released
+
+//@ func (*Handler).releaseSession
+//@ prop C25
+//@ check lockset
+//@ modifies *
+//@ after call Lock let wasReleased = ss.Released
+//@ at call ReleaseSession assert held(ss.mu) && !wasReleased
+//@ at call (*Session).Close assert held(ss.mu) && !wasReleased && ss.Released
+//@ note the slot is released only inside the critical section that found Released false and set it (test-and-set under the stream's mutex; the flag is written nowhere else), so two overlapping teardowns of one stream release one slot
+//@ fieldwritesonly[C25] ShellStream.Released: (*Handler).releaseSession
